@@ -72,3 +72,17 @@ PROPS['C09'] = dict(
     assumptions=['after every start one message is sent through each started handler before the program continues, so that the middleware snapshot of a '
                  'started handler (taken asynchronously by its goroutine) is fixed before later registrations'],
 )
+
+PROPS['C12'] = dict(
+    level='model_checking',
+    design=[D('MCRetry', 'MCRetry.cfg', coverage=True), D('MCRetry', 'MCRetry_elapsed.cfg')],
+    traces={'RetryTrace': dict(module='RetryTrace', cfg='RetryTrace.cfg')},
+    rule='runs = {MaxRetries} x {back-off configurations incl. zero intervals, fractional multiplier, randomization 0, 1/2, 1} x {fail^i then succeed, fail forever} '
+         'with distinguishable errors/outputs per attempt, plus scenarios in which the message context ends in the middle of an attempt / early in a long wait and '
+         'in which MaxElapsedTime passes, plus random configurations; distinct = distinct case; non-trivial = at least one failing attempt (a retry decision is made)',
+    exhaustive=False,
+    min_stats={'plain_cases': 80, 'context_and_elapsed_cases': 10},
+    assumptions=['timers never fire early (only lower bounds on waits are asserted)',
+                 'an attempt that starts more than margin (150 ms + 2 attempt durations) after the context ended cannot be explained by the select race between timer and ctx.Done',
+                 'scheduling delays stay below retMargin (400 ms) when the middleware must give up promptly'],
+)
